@@ -1,4 +1,5 @@
 import datetime
+import math
 import dateutil
 import numpy
 import pandas
@@ -77,6 +78,14 @@ class ExcelType:
 
     def __pow__(self, other):
         base, exponent = Number.cast(self).value, Number.cast(other).value
+        if (
+                isinstance(base, int) and isinstance(exponent, int)
+                and exponent > 0 and abs(base) > 1
+                and exponent * math.log2(abs(base)) >= 1024
+        ):
+            # Beyond the range of a double: #NUM!, as in Excel, instead of
+            # an exact integer with thousands (or billions) of digits.
+            raise xlerrors.NumExcelError()
         try:
             result = base ** exponent
         except ZeroDivisionError:
